@@ -148,6 +148,14 @@ def main(argv=None) -> int:
     ap.add_argument('--repo', default=os.environ.get('PYSPIKE_REPO', '/repo'))
     ap.add_argument('--replay', default=None)
     a = ap.parse_args(argv)
+    # evidence of the registered checks describes /repo itself; analyses of other trees (seeded variants,
+    # self-validation corpus) write to a scratch directory so that they can never overwrite it
+    from . import report
+    if os.environ.get('PYSPIKE_EVIDENCE_DIR'):
+        report.EVIDENCE_DIR = os.environ['PYSPIKE_EVIDENCE_DIR']
+    elif os.path.realpath(a.repo) != os.path.realpath('/repo'):
+        import tempfile
+        report.EVIDENCE_DIR = tempfile.mkdtemp(prefix='pyspike_sa_evidence_')
     try:
         if a.replay:
             return replay(a.prop, a.replay, a.repo)
